@@ -4,10 +4,13 @@
 
 package key
 
-//@ extern (*Group).GetGenesisSeed(g) (r)
-//@   trusted lazily caches Hash() in g.GenesisSeed; touches nothing else
+//@ ghost groupHashOf(ref) bytes
+//@ func (*Group).GetGenesisSeed(g) (r)
+//@   props C17
+//@   flags trustedframe
+//@   trusted lazily caches Hash() in g.GenesisSeed; apart from that only the order of g.Nodes (sorted in place by Hash) changes
 //@   modifies g.GenesisSeed
-//@   ensures r == g.GenesisSeed
+//@   ensures [C17:the-genesis-seed-is-the-cached-one-or-else-the-group-hash] r == g.GenesisSeed && r != nil && (old(g.GenesisSeed) != nil ==> r == old(g.GenesisSeed)) && (old(g.GenesisSeed) == nil ==> r == groupHashOf(g))
 
 //@ func (*Group).Node(g, i) (n)
 //@   props C03 C07
@@ -134,21 +137,38 @@ package key
 //@   trusted sort.Slice: permutes the elements of the slice it is given in place (with the comparator checked above: by node index), touches nothing else
 //@   modifies elems(asSlice(x, "[]*Node"))
 //@ field hashFunc() (h)
-//@   trusted blake2b-256: a fresh hash state (kind 2562)
-//@   modifies tr(all), hkind(all)
-//@   ensures h != nil && tr(h) == nil && hkind(h) == 2562 && (forall o ref :: o != ref(h) ==> tr(o) == old(tr(o)) && hkind(o) == old(hkind(o)))
+//@   trusted blake2b-256: a fresh hash state (kind 2562), a new object
+//@   modifies tr(all), hkind(all), nw(all)
+//@   ensures h != nil && isnew(h) && tr(h) == nil && hkind(h) == 2562 && nw(h) == 0 && (forall o ref :: o != ref(h) ==> tr(o) == old(tr(o)) && hkind(o) == old(hkind(o)) && nw(o) == old(nw(o)))
 //@ ghost nodeHashOf(ref) bytes
 //@ ghost distPublicHashOf(ref) bytes
 //@ axiom [C17] node-hash-length: forall n ref {nodeHashOf(n)} :: len(nodeHashOf(n)) == 32
 //@ axiom [C17] dist-public-hash-length: forall n ref {distPublicHashOf(n)} :: len(distPublicHashOf(n)) == 32
-//@ extern (*Node).Hash(n) (r)
-//@   trusted hash of index and key of one node, computed on a private hash state (its transcript is not under contract); a function of the node object
+//@ iface (github.com/drand/kyber.Marshaling).MarshalTo(p, w) (n, err)
+//@   trusted kyber: writes the binary form of the point / scalar into the writer
+//@   modifies tr(w)
+//@   ensures tr(w) == cat(old(tr(w)), marshalOf(p))
+// Node.Hash: blake2b-256 over the index (4 bytes, little endian) followed by the binary form of the node's key; nothing else.
+//@ func (*Node).Hash(n) (r)
+//@   props C17
+//@   requires [wf] n.Identity != nil && n.Key != nil
 //@   modifies nothing
-//@   ensures r == nodeHashOf(n)
-//@ extern (*DistPublic).Hash(d) (r)
-//@   trusted hash of the coefficients of the distributed public key, computed on a private hash state (transcript not under contract); a function of the object
+//@   defines r == nodeHashOf(n)
+//@   ensures [C17:node-hash-is-the-digest-of-index-and-key] r == digest(2562, cat(cat(nil, enc(0, 4, n.Index)), marshalOf(n.Key)))
+// DistPublic.Hash: every coefficient, in order, is marshalled and written into the one blake2b state, one write per
+// coefficient (nw counts the writes into a writer: scoped contract of Write for this package).
+//@ ghostfield nw(ref) int
+//@ iface (io.Writer).Write@github.com/drand/drand/v2/common/key(w, p) (n, err)
+//@   trusted hash.Hash appends the bytes it is given (stdlib), never fails; nw counts the calls
+//@   modifies tr(w), nw(w)
+//@   ensures tr(w) == cat(old(tr(w)), p) && nw(w) == old(nw(w)) + 1
+//@ func (*DistPublic).Hash(d) (r)
+//@   props C17
 //@   modifies nothing
-//@   ensures r == distPublicHashOf(d)
+//@   defines r == distPublicHashOf(d)
+//@   loop 0: invariant [C17:coefficient-scan] -1 <= rangeindex0 && rangeindex0 < len(d.Coefficients) && hkind(h) == 2562 && nw(h) == rangeindex0 + 1 && isnew(h)
+//@   call Write#0: assert [C17:every-coefficient-is-hashed-into-the-distributed-key-hash] arg0 == h && arg1 == marshalOf(c) && c == d.Coefficients[rangeindex0 + 1]
+//@   ensures [C17:the-distributed-key-hash-has-one-write-per-coefficient] r == digest(2562, tr(h)) && nw(h) == len(d.Coefficients)
 // What is written into the group hash, in source order, all into the same hash state h: every node of the sorted list, the
 // threshold (4 bytes), the genesis time (8 bytes), the transition time when it is set, the hash of the distributed public key
 // when there is one, the id when it is not the default one. A write that disappears or changes place makes the clauses
@@ -163,7 +183,9 @@ package key
 //@   call Write#3: assert [C17:the-transition-time-is-hashed-into-the-group-hash-when-set] ref(arg0) == ref(h) && typeis(arg2, "int64") && ref(arg2) == g.TransitionTime && g.TransitionTime != 0
 //@   call Write#4: assert [C17:the-distributed-public-key-is-hashed-into-the-group-hash] arg0 == h && g.PublicKey != nil && arg1 == distPublicHashOf(g.PublicKey)
 //@   call Write#5: assert [C17:a-non-default-id-is-hashed-into-the-group-hash] arg0 == h && arg1 == strBytes(g.ID) && g.ID != "default" && g.ID != ""
+//@   defines r == groupHashOf(g)
 //@   ensures [C17:the-group-hash-is-the-digest-of-what-was-written] r == digest(2562, tr(h))
+//@   ensures [C17:the-group-hash-is-never-nil] r != nil
 //@   ensures [C17:the-group-hash-covers-every-node-both-fixed-terms-and-exactly-the-optional-terms-that-are-set] len(tr(h)) == 32 * len(g.Nodes) + 12 + ite(g.TransitionTime != 0, 8, 0) + ite(g.PublicKey != nil, 32, 0) + ite(g.ID != "default" && g.ID != "", len(g.ID), 0)
 //@   call Slice#0: assert [C17:the-list-that-is-sorted-is-the-list-the-comparator-reads] asSlice(arg0, "[]*Node") == g.Nodes
 
